@@ -1,9 +1,9 @@
-use grafeo_engine::query::optimizer::Optimizer;
-use grafeo_engine::query::gql_translator;
+use grafeo_engine::GrafeoDB;
 fn main() {
-    let text = std::env::args().nth(1).unwrap();
-    let logical = gql_translator::translate(&text).unwrap();
-    println!("LOGICAL: {:#?}", logical);
-    let o = Optimizer::new().with_filter_pushdown(true).with_join_reorder(false).with_projection_pushdown(false);
-    println!("PUSHED: {:#?}", o.optimize(logical).unwrap());
+    let db = GrafeoDB::new_in_memory();
+    db.execute_sparql("INSERT DATA { <http://e/a> <http://e/p> <http://e/b> . <http://e/b> <http://e/p> <http://e/c> . <http://e/b> <http://e/q> 2 }").unwrap();
+    for q in std::env::args().skip(1) {
+        let r = db.execute_sparql(&q).unwrap();
+        println!("{q}\n  {:?}", r.rows);
+    }
 }
